@@ -97,7 +97,8 @@ def run(ctx):
         pred = lambda os_: bool(os_) and all(o.kind == "load" and tuple(o.proj) == ("asset_info",) for o in os_)
         for kind, want in (("NativeToken", "amount"), ("Token", "zero")):
             excl = variant_excluded_edges(v, "pool_network::asset::AssetInfo", pred, kind)
-            reach = v.reachable(0, cut_edges=excl)
+            from ..dataflow import consistent_reach
+            reach, _cut = consistent_reach(v, excl)
             got = set()
             n_sub = 0
             with v.restricted(reach):
